@@ -3,5 +3,9 @@
 //! code for its own harnesses; `thorough` adds the `*_t_*` harnesses.
 #![cfg_attr(kani, feature(allocator_api))]
 #![allow(dead_code, unused_imports, unused_features)]
+#[cfg(kani)]
+pub(crate) mod stubs;
+#[cfg(all(kani, feature = "c20"))]
+mod c20;
 #[cfg(all(kani, feature = "c22"))]
 mod c22;
